@@ -76,6 +76,13 @@ theorem C05_font_imports (lookup : List Gomjml.Amp.B → List Gomjml.Amp.B) (fam
     (Gomjml.SmallPure.convert lookup fams).Sublist (fams.map lookup) :=
   Gomjml.SmallPure.convert_spec lookup fams
 
+/-- … and the list is stable: de-duplicating it again changes nothing (the head merges this list with the declared fonts through
+    the same step) -/
+theorem C05_font_imports_stable (lookup : List Gomjml.Amp.B → List Gomjml.Amp.B) (fams : List (List Gomjml.Amp.B)) :
+    Gomjml.SmallPure.dedupFirst (Gomjml.SmallPure.convert lookup fams) = Gomjml.SmallPure.convert lookup fams := by
+  unfold Gomjml.SmallPure.convert
+  exact Gomjml.SmallPure.dedupFirst_idem _
+
 /-- non-vacuity: two families with the same address and one without -/
 example : Gomjml.SmallPure.convert (fun f => if f = [1] then [] else [7]) [[2], [1], [3]] = [[7]] := by decide
 
